@@ -22,6 +22,9 @@ def history(ctx, nops):
             # an experiment may be called like anything — also like a method or attribute of the evaluator
             p.name = ["recompile", "run_experiment", "_checksum", "partial", "str"][len(progs) % 5]
         progs.append((p, gen.render(p)))
+    for k in (rng.choice([8, 16, 31, 32, 33, 40]), 64):
+        wide = gen.wide_program(rng, k)     # equally long return statements with different weights: the same call path, other data
+        progs.append((wide, gen.render(wide)))
     bad = ['def e { return "a" weighted }', 'def e { splitters: u return "a" weighted 1 } @']
     ops = []
     live = {}
@@ -57,6 +60,12 @@ def history(ctx, nops):
                     for v in rng.sample([1, 1.0, True, 0, 0.0, False, 7, 7.0], 3):
                         e2 = dict(env); e2[sp] = v
                         ops.append(["call", ident, common.enc_env(e2)])
+    # the wide program on every branch in turn (same evaluator, same call path, different weight data each time)
+    for wide in progs[-2:]:
+        ops.append(["new", 3, wide[1]])
+        for k in range(10):
+            for t in ("a", "b", "c", "a"):
+                ops.append(["call", 3, common.enc_env({"u": "unit%d" % (k % 5), "tier": t})])
     return ops
 
 
